@@ -24,7 +24,7 @@ MIN_NONVACUOUS = {'quick': {'orders.dispatch_is_sum_of_executed_orders': 175, 'o
 
 
 def gen_case(rng):
-    g = gen.gen_grid(rng, freqs=['h', 'h', '2h', '4h', 'd', '30min'], steps=(4, 30))
+    g = gen.gen_grid(rng, freqs=['h', 'h', '2h', '4h', 'd', '30min'], steps=(4, 30)) if rng.random() < 0.8 else gen.gen_grid(rng, dst=True, steps=(6, 14))      # (a fifth: steps of unequal length)
     f = gen.UNIT_F[g['unit']]
     T = len(gen.grid_points(g))
     nn = int(rng.integers(1, 3)); nodes = ['n%d' % i for i in range(nn)]
@@ -34,6 +34,8 @@ def gen_case(rng):
     for i, n in enumerate(nodes):
         assets.append(gen.gen_market(rng, 'mkt%d' % i, n, f, 'p%d' % i, spread=gen.pick(rng, [0.5, 2., 6.]), cap=gen.pick(rng, [3., 10., 50.]))); pk.append('p%d' % i)
     ob = gen.gen_orderbook(rng, g, 'book', gen.pick(rng, nodes), n_orders=int(rng.integers(1, 26 if not full else 10)), full_exec=full, price_level=lvl)
+    if rng.random() < 0.3:
+        ob['wacc'] = gen.pick(rng, [0.5, 2.0])          # a discount rate at which the factor differs visibly from step to step
     if rng.random() < 0.3 and len(ob['orders']['start']) >= 1:
         # the same order twice (two identical lots): two execution variables
         k_ = int(rng.integers(len(ob['orders']['start'])))
@@ -126,6 +128,13 @@ def run_case(rng, tier, case):
         if abs(float(row['costs']) - wantc) > 1e-6 * (1 + abs(wantc)) or abs(float(row['value']) - frac[k]) > 1e-9:
             okc = False; bad = [k, float(row['costs']), wantc, float(row['value']), float(frac[k])]
     case.check('orders.costs_reported', okc and seen == set(inside), nonvacuous=executed, bad=bad, reported_orders=sorted(seen)[:10], in_horizon=inside[:10])
+    # the cost coefficient of an order's execution variable: price x capacity x (length of each covered step x that step's discount factor), summed
+    cvec = np.asarray(kd.snap.c, float)
+    wantv = np.array([o['capa'][k] * o['price'][k] * float(np.sum(ck.dt[cover[k]] * d[cover[k]])) if cover[k] else 0. for k in range(n)])
+    if len(cvec) == n:
+        kb = int(np.argmax(np.abs(cvec - wantv) / (1. + np.abs(wantv))))
+        case.check('orders.cost_coefficient_is_discounted_per_step', bool(np.all(np.abs(cvec - wantv) <= 1e-9 * (1. + np.abs(wantv)))), nonvacuous=bool(inside),
+                   order=kb, coefficient=float(cvec[kb]), want=float(wantv[kb]), wacc=ob.get('wacc', 0.), unequal_steps=bool(np.ptp(ck.dt) > 1e-12))
     # the cost vector alone (the documented costs_only route used for price samples / robust / SLP) is the problem's cost vector
     try:
         with attach.paused(), env.quiet():
